@@ -47,12 +47,15 @@ Definition fold_keystr  := mk_fold keystr_fold_lo keystr_fold_hi keystr_fold_del
 Definition fold_keypfx  := mk_fold keypfx_fold_lo keypfx_fold_hi keypfx_fold_delta. (* KeyWithPrefix *)
 Definition fold_wwn     := mk_fold wwn_fold_lo wwn_fold_hi wwn_fold_delta.          (* writeWireName *)
 Definition fold_wep     := mk_fold wep_fold_lo wep_fold_hi wep_fold_delta.          (* WireNameEqualsPresentation.fold *)
-Definition fold_enf_a   := mk_fold enf_fold_lo enf_fold_hi enf_fold_delta.          (* equalNameASCIIFold, ca *)
-Definition fold_enf_b   := mk_fold enf_fold_lo_b enf_fold_hi_b enf_fold_delta_b.    (* equalNameASCIIFold, cb *)
-Definition fold_fwn     := mk_fold fwn_fold_lo fwn_fold_hi fwn_fold_delta.          (* foldWireNamesEqual *)
 
 (* the specification's fold: A–Z to a–z and nothing else *)
 Definition fold_byte (b : N) : N := if (65 <=? b) && (b <=? 90) then b + 32 else b.
+(* equalNameASCIIFold and foldWireNamesEqual are translated whole from the Go AST (Gen.C03
+   go_equalNameASCIIFold / go_foldWireNamesEqual); Proofs_Gen.v proves the translations equal to
+   equal_name_ascii_fold / fold_wire_names_equal below, so their fold is the specification's *)
+Definition fold_enf_a   := fold_byte.          (* equalNameASCIIFold, ca *)
+Definition fold_enf_b   := fold_byte.          (* equalNameASCIIFold, cb *)
+Definition fold_fwn     := fold_byte.          (* foldWireNamesEqual *)
 Definition fold (s : bytes) : bytes := map fold_byte s.
 
 (* ------------------------------------------------------------------ *)
@@ -750,7 +753,7 @@ Section Store.
   Fixpoint backoff_loop (n : nat) (maxttl ttl : N) : N :=
     match n with
     | O => ttl
-    | S n' => if ttl <? maxttl then (if maxttl / 2 <? ttl then maxttl else backoff_loop n' maxttl (2 * ttl)) else ttl
+    | S n' => if ttl <? maxttl then (if maxttl / failure_backoff_half <? ttl then maxttl else backoff_loop n' maxttl (failure_backoff_factor * ttl)) else ttl
     end.
   Definition backoff (initial maxttl streak : N) : N :=
     let ttl := backoff_loop (N.to_nat (streak - 1)) maxttl initial in
